@@ -330,17 +330,20 @@ class Dispatch:
         return vals.pop() if len(vals) == 1 else None
 
     # ---- expression-level partial evaluation (conditions kept in named booleans / conditional expressions)
-    def truth_under(self, fi: FuncInfo, key: str | None, at: Node, e: ast.expr, depth: int = 5) -> bool | None:
-        """Truth of a condition when the subject equals ``key`` (None = undetermined)."""
+    def truth_under(self, fi: FuncInfo, key: str | None, at: Node, e: ast.expr, depth: int = 5, unknown: bool | None = None) -> bool | None:
+        """Truth of a condition when the subject equals ``key`` (None = undetermined).  ``unknown``: the value to assume for atomic
+        conditions that do not depend on the subject (e.g. False = "none of the side conditions holds")."""
         if depth <= 0:
-            return None
+            return unknown
         if isinstance(e, ast.Constant):
             return bool(e.value)
+        if isinstance(e, ast.Call) and isinstance(e.func, ast.Name) and e.func.id == "bool" and len(e.args) == 1:
+            return self.truth_under(fi, key, at, e.args[0], depth - 1, unknown)
         if isinstance(e, ast.UnaryOp) and isinstance(e.op, ast.Not):
-            v = self.truth_under(fi, key, at, e.operand, depth - 1)
+            v = self.truth_under(fi, key, at, e.operand, depth - 1, unknown)
             return None if v is None else not v
         if isinstance(e, ast.BoolOp):
-            vals = [self.truth_under(fi, key, at, x, depth - 1) for x in e.values]
+            vals = [self.truth_under(fi, key, at, x, depth - 1, unknown) for x in e.values]
             if isinstance(e.op, ast.Or):
                 return True if any(v is True for v in vals) else (False if all(v is False for v in vals) else None)
             return False if any(v is False for v in vals) else (True if all(v is True for v in vals) else None)
@@ -349,11 +352,14 @@ class Dispatch:
             if kt is not None:
                 keys, positive = kt
                 return (key in keys) == positive
-            return None
+            return unknown
         if isinstance(e, ast.Name):
-            vals = {self.truth_under(fi, key, d, v, depth - 1) for v, d in self._defs_under(fi, key, at, e)}
+            ds = self._defs_under(fi, key, at, e)
+            if not ds:
+                return unknown
+            vals = {self.truth_under(fi, key, d, v, depth - 1, unknown) for v, d in ds}
             return vals.pop() if len(vals) == 1 else None
-        return None
+        return unknown
 
     def blocked_under(self, key: str | None) -> set:
         """The out-edges that cannot be taken when the subject equals ``key``."""
@@ -1852,9 +1858,29 @@ def value_sources(fi: FuncInfo, at: Node, e: ast.expr | None, depth: int = 5) ->
         return out
     seen: set[int] = set()
 
+    g = build_cfg(fi.node)
+
+    def enumerate_start(name: str) -> list[tuple[ast.expr, Node]]:
+        """`for i, x in enumerate(xs, start)`: the counter i is computed from `start`."""
+        found = []
+        for l in g.nodes:
+            if l.kind == "for" and isinstance(l.ast.target, ast.Tuple) and l.ast.target.elts and isinstance(l.ast.target.elts[0], ast.Name) and l.ast.target.elts[0].id == name:
+                it = l.ast.iter
+                if isinstance(it, ast.Call) and isinstance(it.func, ast.Name) and it.func.id == "enumerate":
+                    st = it.args[1] if len(it.args) > 1 else kwarg(it, "start")
+                    if st is not None:
+                        found.append((st, l))
+        return found
+
     def visit(expr: ast.expr, where: Node, d: int) -> None:
         for nm in [x for x in ast.walk(expr) if isinstance(x, ast.Name) and isinstance(x.ctx, ast.Load)]:
             for leaf, chain in flows(fi, where, nm):
+                if isinstance(leaf, ast.Name) and not chain and d > 0:
+                    for st, l in enumerate_start(leaf.id):
+                        if id(st) not in seen:
+                            seen.add(id(st))
+                            out.append(st)
+                            visit(st, l, d - 1)
                 if id(leaf) in seen:
                     continue
                 seen.add(id(leaf))
@@ -1866,4 +1892,25 @@ def value_sources(fi: FuncInfo, at: Node, e: ast.expr | None, depth: int = 5) ->
                         pass  # arguments of a call are not part of the value's identity
 
     visit(e, at, depth)
+    return out
+
+
+def keyed_values(fi: FuncInfo, key: str) -> list[tuple[Node, ast.expr]]:
+    """Every value a function stores under the constant mapping key ``key``: entries of dict displays, item assignments
+    ``m["key"] = v``, ``dict(key=v)`` / ``m.update(key=v)`` keywords.  (CFG node, value expression)."""
+    g = build_cfg(fi.node)
+    out: list[tuple[Node, ast.expr]] = []
+    for n in g.stmts():
+        if n.ast is None or n.kind not in ("stmt",):
+            continue
+        st = n.ast
+        for x in [st, *walk_no_nested(st)]:
+            if isinstance(x, ast.Dict):
+                out += [(n, v) for k, v in zip(x.keys, x.values) if isinstance(k, ast.Constant) and k.value == key]
+            elif isinstance(x, ast.Call) and ((isinstance(x.func, ast.Name) and x.func.id == "dict") or (isinstance(x.func, ast.Attribute) and x.func.attr == "update")):
+                out += [(n, k.value) for k in x.keywords if k.arg == key]
+        if isinstance(st, ast.Assign):
+            for t in st.targets:
+                if isinstance(t, ast.Subscript) and isinstance(t.slice, ast.Constant) and t.slice.value == key:
+                    out.append((n, st.value))
     return out
